@@ -9,130 +9,195 @@ Lemma shallow_of_eq x : shallow_of x = shallow x.
 Proof. reflexivity. Qed.
 
 (* ------------------------------------------------------------------ select / delete *)
+(* the checks of Card.select / Card.delete (`not leaf or not all(parents)`) = every name non-empty *)
+Lemma unsnoc_checks (l : list pstr) : l <> [] ->
+  is_empty (snd (unsnoc l)) || negb (forallb nonempty (fst (unsnoc l))) = negb (forallb nonempty l).
+Proof.
+  intros Hne. rewrite <- (unsnoc_app l Hne) at 3. rewrite forallb_app. cbn [forallb].
+  change (nonempty (snd (unsnoc l))) with (negb (is_empty (snd (unsnoc l)))).
+  destruct (is_empty (snd (unsnoc l))), (forallb nonempty (fst (unsnoc l))); reflexivity.
+Qed.
+
+(* the empty key splits into the one empty name: the `if not key` test is subsumed by the test of the names *)
+Lemma names_ok_nonempty key : forallb nonempty (split_names key) = true -> is_empty key = false.
+Proof. destruct key; [vm_compute; discriminate | reflexivity]. Qed.
+
+Lemma forallb_nonempty_iff (l : list pstr) : forallb nonempty l = false <-> In [] l.
+Proof.
+  induction l as [|a l IH]; cbn [forallb In]; [split; [discriminate | contradiction]|].
+  destruct a as [|c a]; cbn [nonempty is_empty negb andb].
+  - split; auto.
+  - rewrite IH. split; [auto | intros [H|H]; [discriminate | exact H]].
+Qed.
+
 Theorem card_select_spec key d :
   card_select key d =
-  if is_empty key || is_empty (last (split_names key) []) then Raise EKey
-  else match lookup (split_names key) d with Some x => Ok x | None => Raise EKey end.
+  if forallb nonempty (split_names key)
+  then match lookup (split_names key) d with Some x => Ok x | None => Raise EKey end
+  else Raise EKey.
 Proof.
-  unfold card_select. destruct (is_empty key); [reflexivity|]. cbn [orb].
+  unfold card_select. pose proof (names_ok_nonempty key) as Hk.
   pose proof (split_names_nonnil key) as Hne.
-  pose proof (unsnoc_app _ Hne) as Happ. pose proof (unsnoc_last (split_names key)) as Hlast.
+  pose proof (unsnoc_app _ Hne) as Happ. pose proof (unsnoc_checks _ Hne) as Hchk.
   destruct (unsnoc (split_names key)) as [parents leaf]. cbn [fst snd] in *.
-  rewrite <- Hlast. destruct (is_empty leaf); [reflexivity|].
-  rewrite <- Happ. rewrite <- descend_lookup. destruct (descend parents d) as [pd|]; [|reflexivity].
-  destruct (dget leaf pd); reflexivity.
+  rewrite Hchk. destruct (forallb nonempty (split_names key)).
+  - rewrite Hk by reflexivity. cbn [negb].
+    rewrite <- Happ. rewrite <- descend_lookup. destruct (descend parents d) as [pd|]; [|reflexivity].
+    destruct (dget leaf pd); reflexivity.
+  - destruct (is_empty key); reflexivity.
 Qed.
 
 Theorem card_delete_spec key d :
   card_delete key d =
-  if is_empty key || is_empty (last (split_names key) []) then Raise EKey
-  else match delete_path (split_names key) d with Some d' => Ok d' | None => Raise EKey end.
+  if forallb nonempty (split_names key)
+  then match delete_path (split_names key) d with Some d' => Ok d' | None => Raise EKey end
+  else Raise EKey.
 Proof.
-  unfold card_delete. destruct (is_empty key); [reflexivity|]. cbn [orb].
-  rewrite unsnoc_last. reflexivity.
+  unfold card_delete. pose proof (names_ok_nonempty key) as Hk.
+  pose proof (unsnoc_checks _ (split_names_nonnil key)) as Hchk.
+  destruct (unsnoc (split_names key)) as [parents leaf]. cbn [fst snd] in *.
+  rewrite Hchk. destruct (forallb nonempty (split_names key)).
+  - rewrite Hk by reflexivity. reflexivity.
+  - destruct (is_empty key); reflexivity.
 Qed.
 
 (* C09_delete_list_verbatim: the list form uses its names as they are *)
 Theorem card_delete_list_spec names d :
   card_delete_list names d =
-  if is_empty (last names []) then Raise EKey
-  else match delete_path names d with Some d' => Ok d' | None => Raise EKey end.
+  match names with
+  | [] => Raise EKey
+  | _ :: _ => if forallb nonempty names
+              then match delete_path names d with Some d' => Ok d' | None => Raise EKey end
+              else Raise EKey
+  end.
 Proof.
   unfold card_delete_list. destruct names as [|n names]; [reflexivity|].
-  rewrite unsnoc_last. reflexivity.
+  assert (Hne : n :: names <> []) by discriminate.
+  pose proof (unsnoc_checks _ Hne) as Hchk.
+  destruct (unsnoc (n :: names)) as [parents leaf]. cbn [fst snd] in *.
+  rewrite Hchk. destruct (forallb nonempty (n :: names)); reflexivity.
 Qed.
 
-(* C09_errors_pure: select never changes the card, and it fails exactly on an empty key,
-   an empty last name or a path that does not lead to a section; always with KeyError *)
+(* C09_errors_pure: select never changes the card, and it fails exactly on an empty key, an empty name
+   anywhere in the path or a path that does not lead to a section; always with KeyError *)
 Theorem select_errors key c :
   fst (run_op (OSelect key) c) = c /\
   (snd (run_op (OSelect key) c) = Failed EKey <->
-     key = [] \/ last (split_names key) [] = [] \/ lookup (split_names key) (data c) = None) /\
+     key = [] \/ In [] (split_names key) \/ lookup (split_names key) (data c) = None) /\
   (forall e, snd (run_op (OSelect key) c) = Failed e -> e = EKey).
 Proof.
   cbn [run_op]. rewrite card_select_spec.
-  destruct key as [|ch key].
-  - cbn [is_empty orb]. repeat split; auto. intros e H. injection H as <-. reflexivity.
-  - cbn [is_empty orb]. destruct (last (split_names (ch :: key)) []) as [|l0 l] eqn:El; cbn [is_empty].
+  destruct (forallb nonempty (split_names key)) eqn:Ef.
+  - assert (Hin : ~ In [] (split_names key)).
+    { intros H. apply forallb_nonempty_iff in H. congruence. }
+    assert (Hk : key <> []).
+    { intros ->. apply names_ok_nonempty in Ef. discriminate. }
+    destruct (lookup (split_names key) (data c)) as [x|] eqn:E; cbn [fst snd].
+    + repeat split; [discriminate | intros [H|[H|H]]; [contradiction | contradiction | discriminate] | intros e H; discriminate].
     + repeat split; auto. intros e H. injection H as <-. reflexivity.
-    + destruct (lookup (split_names (ch :: key)) (data c)) as [x|] eqn:E; cbn [fst snd].
-      * repeat split; [discriminate | intros [H|[H|H]]; discriminate | intros e H; discriminate].
-      * repeat split; auto. intros e H. injection H as <-. reflexivity.
+  - apply forallb_nonempty_iff in Ef. cbn [fst snd]. repeat split; auto. intros e H. injection H as <-. reflexivity.
 Qed.
 
 Theorem delete_errors key c :
   (snd (run_op (ODelete key) c) = Failed EKey <->
-     key = [] \/ last (split_names key) [] = [] \/ lookup (split_names key) (data c) = None) /\
+     key = [] \/ In [] (split_names key) \/ lookup (split_names key) (data c) = None) /\
   (forall e, snd (run_op (ODelete key) c) = Failed e -> e = EKey /\ fst (run_op (ODelete key) c) = c).
 Proof.
   cbn [run_op]. rewrite card_delete_spec.
-  destruct key as [|ch key].
-  - cbn [is_empty orb fst snd]. split; [split; auto|]. intros e H. injection H as <-. auto.
-  - cbn [is_empty orb]. destruct (last (split_names (ch :: key)) []) as [|l0 l] eqn:El; cbn [is_empty].
-    + cbn [fst snd]. split; [split; auto|]. intros e H. injection H as <-. auto.
-    + destruct (delete_path (split_names (ch :: key)) (data c)) as [d'|] eqn:E; cbn [fst snd].
-      * assert (Hl : lookup (split_names (ch :: key)) (data c) <> None).
+  destruct (forallb nonempty (split_names key)) eqn:Ef.
+  - assert (Hin : ~ In [] (split_names key)).
+    { intros H. apply forallb_nonempty_iff in H. congruence. }
+    assert (Hk : key <> []).
+    { intros ->. apply names_ok_nonempty in Ef. discriminate. }
+    destruct (delete_path (split_names key) (data c)) as [d'|] eqn:E; cbn [fst snd].
+    + assert (Hl : lookup (split_names key) (data c) <> None).
+      { intros Hn. apply delete_none_iff in Hn. congruence. }
+      split; [split; [discriminate | intros [H|[H|H]]; contradiction]|].
+      intros e H; discriminate.
+    + apply delete_none_iff in E. split; [split; auto|]. intros e H. injection H as <-. auto.
+  - apply forallb_nonempty_iff in Ef. cbn [fst snd]. split; [split; auto|]. intros e H. injection H as <-. auto.
+Qed.
+
+(* the list form: fails exactly on the empty list, an empty name anywhere or a missing path *)
+Theorem delete_list_errors names c :
+  (snd (run_op (ODeleteList names) c) = Failed EKey <->
+     names = [] \/ In [] names \/ lookup names (data c) = None) /\
+  (forall e, snd (run_op (ODeleteList names) c) = Failed e -> e = EKey /\ fst (run_op (ODeleteList names) c) = c).
+Proof.
+  cbn [run_op]. rewrite card_delete_list_spec.
+  destruct names as [|n names].
+  - cbn [fst snd]. split; [split; auto|]. intros e H. injection H as <-. auto.
+  - destruct (forallb nonempty (n :: names)) eqn:Ef.
+    + assert (Hin : ~ In [] (n :: names)).
+      { intros H. apply forallb_nonempty_iff in H. congruence. }
+      destruct (delete_path (n :: names) (data c)) as [d'|] eqn:E; cbn [fst snd].
+      * assert (Hl : lookup (n :: names) (data c) <> None).
         { intros Hn. apply delete_none_iff in Hn. congruence. }
-        split; [split; [discriminate | intros [H|[H|H]]; [discriminate | discriminate | contradiction]]|].
+        split; [split; [discriminate | intros [H|[H|H]]; [discriminate | contradiction | contradiction]]|].
         intros e H; discriminate.
       * apply delete_none_iff in E. split; [split; auto|]. intros e H. injection H as <-. auto.
+    + apply forallb_nonempty_iff in Ef. cbn [fst snd]. split; [split; auto|]. intros e H. injection H as <-. auto.
 Qed.
 
-Lemma last_app_ne {A} (l r : list A) d : r <> [] -> last (l ++ r) d = last r d.
+(* a successful select / delete: what it returns / leaves *)
+Theorem select_ok key c x :
+  snd (run_op (OSelect key) c) = Selected x <->
+  key <> [] /\ ~ In [] (split_names key) /\ lookup (split_names key) (data c) = Some x.
 Proof.
-  intros Hr. induction l as [|a l IH]; [reflexivity|]. cbn [app].
-  change (last (a :: l ++ r) d) with (match l ++ r with [] => a | _ :: _ => last (l ++ r) d end).
-  destruct (l ++ r) eqn:E; [destruct l; [contradiction | discriminate]|]. exact IH.
-Qed.
-
-Lemma last_in {A} (l : list A) d : l <> [] -> In (last l d) l.
-Proof.
-  induction l as [|a l IH]; [congruence|]. intros _.
-  destruct l as [|b l]; [left; reflexivity|]. right. apply IH. discriminate.
+  cbn [run_op]. rewrite card_select_spec.
+  destruct (forallb nonempty (split_names key)) eqn:Ef.
+  - assert (Hin : ~ In [] (split_names key)).
+    { intros H. apply forallb_nonempty_iff in H. congruence. }
+    assert (Hk : key <> []).
+    { intros ->. apply names_ok_nonempty in Ef. discriminate. }
+    destruct (lookup (split_names key) (data c)) as [y|]; cbn [snd].
+    + split; [intros H; injection H as ->; auto | intros [_ [_ H]]; injection H as ->; reflexivity].
+    + split; [discriminate | intros [_ [_ H]]; discriminate].
+  - apply forallb_nonempty_iff in Ef. cbn [snd]. split; [discriminate | intros [_ [H _]]; contradiction].
 Qed.
 
 (* ------------------------------------------------------------------ chained select *)
-(* C09_chain (guarded): select(p + "/" + q) = select(p).select(q) *)
-Theorem chain_partial p q d :
+(* C09_chain: select(p + "/" + q) = select(p).select(q), for every p (not ending in a backslash, which would
+   escape the joining slash), every q and every card -- no guard on the names is left (C09-F1 repaired) *)
+Theorem chain_full p q d :
   ends_with_backslash p = false ->
-  last (split_names p) [] <> [] ->
-  forallb nonempty (split_names q) = true ->
   card_select (p ++ slash :: q) d =
   match card_select p d with Ok x => section_select q x | Raise e => Raise e end.
 Proof.
-  intros Hbs Hlast Hq. rewrite !card_select_spec. rewrite split_names_app by exact Hbs.
+  intros Hbs. rewrite !card_select_spec. rewrite split_names_app by exact Hbs.
   pose proof (split_names_nonnil p) as Hp. pose proof (split_names_nonnil q) as Hqn.
-  assert (Hpne : is_empty p = false).
-  { destruct p; [|reflexivity]. exfalso. apply Hlast. reflexivity. }
-  rewrite Hpne. cbn [orb].
-  assert (Hl1 : is_empty (last (split_names p) []) = false).
-  { destruct (last (split_names p) []); [congruence | reflexivity]. }
-  rewrite Hl1.
-  assert (Hne : is_empty (p ++ slash :: q) = false) by (destruct p; reflexivity).
-  rewrite Hne. cbn [orb].
-  assert (Hl2 : is_empty (last (split_names p ++ split_names q) []) = false).
-  { rewrite last_app_ne by exact Hqn. rewrite forallb_forall in Hq.
-    specialize (Hq _ (last_in (split_names q) [] Hqn)). unfold nonempty in Hq. destruct (is_empty _); [discriminate|reflexivity]. }
-  rewrite Hl2. rewrite lookup_app by assumption.
-  unfold section_select. rewrite Hq.
-  destruct (lookup (split_names p) d); reflexivity.
+  rewrite forallb_app. unfold section_select.
+  destruct (forallb nonempty (split_names p)); cbn [andb]; [|reflexivity].
+  destruct (forallb nonempty (split_names q)).
+  - rewrite lookup_app by assumption. destruct (lookup (split_names p) d); reflexivity.
+  - destruct (lookup (split_names p) d); reflexivity.
 Qed.
 
-(* ... and without the guard on the names it is false: C09-F1 *)
+(* the guard on p is the path syntax, not a defect: "a\" + "/" + "b" spells the ONE name "a/b" *)
+Lemma chain_backslash_example :
+  let d := add_single (of_ascii "a\/b") (text_section (of_ascii "a\/b") [120] false) [] in
+  exists x, card_select (of_ascii "a\" ++ slash :: of_ascii "b") d = Ok x /\ card_select (of_ascii "a\") d = Raise EKey.
+Proof. eexists. split; vm_compute; reflexivity. Qed.
+
+(* the former witness of C09-F1: add can still create a section under an empty name ... *)
 Definition card_a__b : dict := add_single (of_ascii "a//b") (text_section (of_ascii "a//b") [120] false) [].
 
-Theorem chain_refuted :
-  exists d p q, ends_with_backslash p = false /\
-    card_select (p ++ slash :: q) d <>
-    match card_select p d with Ok x => section_select q x | Raise e => Raise e end.
+(* ... but no public path leads to it any more: Card.select, Card.delete (both forms) and the chained
+   select all raise KeyError and leave the card as it is, although lookup finds the section *)
+Theorem select_empty_middle_fixed :
+  lookup (split_names (of_ascii "a//b")) card_a__b <> None
+  /\ In [] (split_names (of_ascii "a//b"))
+  /\ card_select (of_ascii "a//b") card_a__b = Raise EKey
+  /\ card_delete (of_ascii "a//b") card_a__b = Raise EKey
+  /\ card_delete_list [of_ascii "a"; []; of_ascii "b"] card_a__b = Raise EKey
+  /\ (match card_select (of_ascii "a") card_a__b with Ok x => section_select (of_ascii "/b") x | Raise e => Raise e end)
+     = Raise EKey
+  /\ (exists d', card_delete (of_ascii "a") card_a__b = Ok d' /\ d' = []).
 Proof.
-  exists card_a__b, [97], [47; 98]. split; [reflexivity|]. vm_compute. discriminate.
+  repeat split; try (vm_compute; reflexivity); try (vm_compute; discriminate).
+  - vm_compute. auto.
+  - eexists. split; vm_compute; reflexivity.
 Qed.
-
-(* selecting a path with an empty name in the middle does not raise KeyError once such a section exists *)
-Theorem select_empty_middle_refuted :
-  exists x, card_select (of_ascii "a//b") card_a__b = Ok x /\ In [] (split_names (of_ascii "a//b")).
-Proof. eexists. split; [vm_compute; reflexivity | vm_compute; auto]. Qed.
 
 (* the resolution of a chain: static checks on the names, then one lookup of the concatenated path *)
 Definition lookup_from (p : list pstr) (x : section) : option section :=
@@ -179,10 +244,9 @@ Theorem chain_select_spec ks d :
   else Raise EKey.
 Proof.
   destruct ks as [|k ks]; [congruence|]. intros _.
-  unfold chain_select, chain_ok, chain_path. cbn [flat_map]. rewrite card_select_spec.
+  unfold chain_select, chain_ok, chain_path. cbn [flat_map forallb]. rewrite card_select_spec.
   pose proof (split_names_nonnil k) as Hk.
-  unfold nonempty. destruct (is_empty k); [reflexivity|].
-  destruct (is_empty (last (split_names k) [])); [reflexivity|]. cbn [orb negb andb].
+  destruct (forallb nonempty (split_names k)); [|reflexivity]. cbn [andb].
   assert (Hroot : lookup (split_names k ++ flat_map split_names ks) d =
                   match lookup (split_names k) d with
                   | Some y => lookup_from (flat_map split_names ks) y | None => None end).
@@ -193,6 +257,23 @@ Proof.
   - rewrite chain_rest_spec. destruct (forallb _ ks); [|reflexivity].
     destruct (lookup_from _ x); reflexivity.
   - destruct (forallb _ ks); reflexivity.
+Qed.
+
+(* a chain fails statically exactly when some key of it has an empty name (the empty key included) *)
+Lemma chain_ok_iff ks : ks <> [] ->
+  (chain_ok ks = false <-> exists k, In k ks /\ (k = [] \/ In [] (split_names k))).
+Proof.
+  intros Hks. destruct ks as [|k0 ks]; [congruence|]. unfold chain_ok.
+  set (l := k0 :: ks). clearbody l. clear. induction l as [|k l IH]; cbn [forallb].
+  - split; [discriminate | intros [k [[] _]]].
+  - destruct (forallb nonempty (split_names k)) eqn:Ek; cbn [andb].
+    + rewrite IH. split.
+      * intros [k' [Hin H]]. exists k'. split; [right; exact Hin | exact H].
+      * intros [k' [[<-|Hin] H]]; [|exists k'; auto].
+        exfalso. destruct H as [->|H]; [apply names_ok_nonempty in Ek; discriminate|].
+        apply forallb_nonempty_iff in H. congruence.
+    + split; [|reflexivity]. intros _. exists k. split; [left; reflexivity|].
+      right. apply forallb_nonempty_iff. exact Ek.
 Qed.
 
 (* ------------------------------------------------------------------ operations as actions *)
@@ -269,13 +350,13 @@ Proof.
   - destruct (card_select key (data c)); cbn [fst]; split; reflexivity.
   - destruct (chain_select ks (data c)) as [[p x]|e]; cbn [fst]; split; reflexivity.
   - rewrite card_delete_spec.
-    destruct (is_empty key || is_empty (last (split_names key) [])); [split; reflexivity|].
+    destruct (forallb nonempty (split_names key)); [|split; reflexivity].
     cbn [apply_actions fold_left apply_action].
     destruct (delete_path (split_names key) (data c)); cbn [fst data metrics set_data]; split; reflexivity.
-  - rewrite card_delete_list_spec.
-    destruct (is_empty (last names [])); [split; reflexivity|].
+  - rewrite card_delete_list_spec. destruct names as [|n names]; [split; reflexivity|].
+    destruct (forallb nonempty (n :: names)); [|split; reflexivity].
     cbn [apply_actions fold_left apply_action].
-    destruct (delete_path names (data c)); cbn [fst data metrics set_data]; split; reflexivity.
+    destruct (delete_path (n :: names) (data c)); cbn [fst data metrics set_data]; split; reflexivity.
   - destruct (chain_ok ks) eqn:Eok.
     + destruct (chain_ok_nonnil ks Eok) as [Hks Hp].
       rewrite chain_select_spec by exact Hks. rewrite Eok.
@@ -349,9 +430,9 @@ Proof.
   - constructor; [|constructor]. split; [apply split_names_nonnil | reflexivity].
   - constructor.
   - constructor.
-  - destruct (_ || _); constructor; [|constructor]. apply split_names_nonnil.
+  - destruct (forallb _ _); constructor; [|constructor]. apply split_names_nonnil.
   - destruct names as [|n names]; [constructor|].
-    destruct (is_empty _); constructor; [|constructor]. discriminate.
+    destruct (forallb _ _); constructor; [|constructor]. discriminate.
   - destruct (chain_ok ks) eqn:E; constructor; [|constructor]. apply chain_ok_nonnil. exact E.
   - destruct (chain_ok ks) eqn:E; constructor; [|constructor]. apply chain_ok_nonnil. exact E.
   - destruct (chain_ok ks) eqn:E; constructor; [|constructor]. apply chain_ok_nonnil. exact E.
@@ -456,19 +537,19 @@ Proof.
   intros Hp. rewrite run_history. apply val_correct; [constructor | apply history_ok | exact Hp].
 Qed.
 
-(* the same, seen through Card.select on a key string *)
+(* the same, seen through Card.select on a key string: for EVERY key without an empty name
+   (the others raise KeyError: select_errors) *)
 Corollary select_after ops key :
-  key <> [] -> last (split_names key) [] <> [] ->
+  ~ In [] (split_names key) ->
   match snd (run_op (OSelect key) (run_card ops empty_card)) with
   | Selected x => val (split_names key) (rev (history ops [])) [] = Some (shallow x)
   | Failed e => e = EKey /\ val (split_names key) (rev (history ops [])) [] = None
   | Done => False
   end.
 Proof.
-  intros Hk Hl. cbn [run_op]. rewrite card_select_spec.
-  destruct key as [|ch key]; [congruence|]. cbn [is_empty orb].
-  destruct (last (split_names (ch :: key)) []) eqn:El; [congruence|]. cbn [is_empty].
-  rewrite <- (select_last ops (split_names (ch :: key)) (split_names_nonnil _)).
+  intros Hin. cbn [run_op]. rewrite card_select_spec.
+  destruct (forallb nonempty (split_names key)) eqn:Ef; [|apply forallb_nonempty_iff in Ef; contradiction].
+  rewrite <- (select_last ops (split_names key) (split_names_nonnil _)).
   destruct (lookup _ _); cbn [snd option_map]; auto.
 Qed.
 
